@@ -46,6 +46,7 @@ type regSys struct {
 	reg       ociregistry.Interface
 	raw       any // what to dump for the key (the real registry object graph)
 	handles   []ociregistry.BlobWriter
+	alts      map[int]ociregistry.BlobWriter // second writer value of a session (alphabetConfig.TwoHandles)
 	model     *Model
 	hist      []Op
 	queries   []Query
@@ -132,6 +133,17 @@ func (s *regSys) enabledAll() []Op {
 				ops = append(ops, Op{K: "Resume", H: h, Off: "zero"})
 			}
 			ops = append(ops, Op{K: "Commit", H: h}, Op{K: "Commit", H: h, Bad: "digest"}, Op{K: "Cancel", H: h})
+			if s.cfg.TwoHandles {
+				ops = append(ops, Op{K: "Resume", H: h, Off: "size", W: 1}, Op{K: "Resume", H: h, Off: "-1", W: 1}, Op{K: "Resume", H: h, Off: "zero", W: 1}, Op{K: "Resume", H: h, Off: "wrong", W: 1})
+				if s.alts[h] != nil {
+					for _, p := range []string{"a", "bc"} {
+						if len(up.Buf)+len(p) <= s.cfg.MaxUpload {
+							ops = append(ops, Op{K: "Write", H: h, Piece: p, W: 1})
+						}
+					}
+					ops = append(ops, Op{K: "Commit", H: h, W: 1})
+				}
+			}
 		case "failed":
 			ops = append(ops, Op{K: "Commit", H: h}, Op{K: "Cancel", H: h})
 		case "committed", "cancelled":
@@ -178,6 +190,9 @@ func (s *regSys) exec(op Op) (out Outcome) {
 			d.Size++
 		}
 		buf := append([]byte(nil), data...)
+		if op.Bad == "overlong" {
+			buf = append(buf, "+more"...) // the stream goes on after the declared size
+		}
 		out := outcomeOf(s.reg.PushBlob(ctx, op.Repo, d, bytes.NewReader(buf)))
 		scribble(buf) // the caller may reuse its buffer once the call has returned
 		return out
@@ -215,6 +230,9 @@ func (s *regSys) exec(op Op) (out Outcome) {
 		return Outcome{OK: true}
 	case "Resume":
 		h := s.handles[op.H]
+		if op.W == 1 && s.alts[op.H] != nil {
+			h = s.alts[op.H]
+		}
 		up := s.model.Uploads[op.H]
 		var off int64
 		switch op.Off {
@@ -229,6 +247,21 @@ func (s *regSys) exec(op Op) (out Outcome) {
 		case "num":
 			off = op.N
 		}
+		if op.W == 1 {
+			// the first writer value stays open in the caller's hands; only an earlier second one is closed
+			if a := s.alts[op.H]; a != nil {
+				a.Close()
+			}
+			w, err := s.reg.PushBlobChunkedResume(ctx, up.Repo, h.ID(), off, s.hint)
+			if err != nil {
+				return outcomeOf(ociregistry.Descriptor{}, err)
+			}
+			if s.alts == nil {
+				s.alts = map[int]ociregistry.BlobWriter{}
+			}
+			s.alts[op.H] = w
+			return Outcome{OK: true}
+		}
 		h.Close()
 		w, err := s.reg.PushBlobChunkedResume(ctx, up.Repo, h.ID(), off, s.hint)
 		if err != nil {
@@ -238,6 +271,9 @@ func (s *regSys) exec(op Op) (out Outcome) {
 		return Outcome{OK: true}
 	case "Write":
 		h := s.handles[op.H]
+		if op.W == 1 {
+			h = s.alts[op.H]
+		}
 		piece := []byte(op.Piece)
 		n, err := h.Write(piece)
 		scribble(piece)
@@ -250,6 +286,9 @@ func (s *regSys) exec(op Op) (out Outcome) {
 		return Outcome{OK: true, N: n}
 	case "Commit":
 		h := s.handles[op.H]
+		if op.W == 1 {
+			h = s.alts[op.H]
+		}
 		dig := sha256Digest(s.model.Uploads[op.H].Buf)
 		if op.Bad != "" {
 			dig = sha256Digest([]byte("not the uploaded bytes"))
@@ -328,6 +367,12 @@ func (s *regSys) Apply(op Op, check bool) (tainted bool) {
 	}
 	for h, up := range s.model.Uploads {
 		if s.handles[h] != nil && up.State == "open" {
+			if a := s.alts[h]; a != nil {
+				if got := a.Size(); got != int64(len(up.Buf)) {
+					s.r.Violate(sub, fpBase+"/upload-size-second-writer", s.caseOf(nil), fmt.Sprintf("Size()=%d", len(up.Buf)), fmt.Sprintf("Size()=%d", got))
+					tainted = true
+				}
+			}
 			if got := s.handles[h].Size(); got != int64(len(up.Buf)) {
 				s.r.Violate(sub, fpBase+"/upload-size", s.caseOf(nil), fmt.Sprintf("Size()=%d", len(up.Buf)), fmt.Sprintf("Size()=%d", got))
 				tainted = true
@@ -380,6 +425,9 @@ func (s *regSys) Key() string {
 	}
 	for i, h := range s.handles {
 		d.Add(fmt.Sprintf("h%d", i), h)
+		if a := s.alts[i]; a != nil {
+			d.Add(fmt.Sprintf("h%d/writer1", i), a)
+		}
 	}
 	d.Add("reg", s.raw)
 	if w, ok := s.reg.(interface{}); ok && !sameObject(s.reg, s.raw) {
